@@ -136,6 +136,18 @@ def Stmt.hasNestedReturns : Stmt → Bool
   | .iflet _ _ _ _ t e => t.hasBothRet || e.hasBothRet
   | .while b => b.hasNestedReturns
 
+/-- a branch of a conditional that contains both a `break`/`continue` and a `return` (the shape of
+    the known finding `accepts-nonlinear-jump-in-returning-branch`: such a branch "definitely
+    returned" for `mergeResourceInfos` although a path leaves it by the jump) -/
+def Stmt.hasJumpRetBranch : Stmt → Bool
+  | .nop => false
+  | .seq a b => a.hasJumpRetBranch || b.hasJumpRetBranch
+  | .atom _ => false
+  | .ite t e => (t.hasJump && t.hasRet) || (e.hasJump && e.hasRet) || t.hasJumpRetBranch || e.hasJumpRetBranch
+  | .iflet _ _ _ _ t e =>
+    (t.hasJump && t.hasRet) || (e.hasJump && e.hasRet) || t.hasJumpRetBranch || e.hasJumpRetBranch
+  | .while b => b.hasJumpRetBranch
+
 def Stmt.size : Stmt → Nat
   | .nop => 0
   | .seq a b => a.size + b.size
